@@ -66,12 +66,18 @@ StructKnown(got, src) == Len(got) = Len(src) /\ \A r \in DOMAIN src : RowKnown(g
    <<structure, strand, startFrames, identifiers>>... *)
 VReparse(ev) ==
   LET src == ev[3] IN
-  IF \E k \in 4..6 : ev[k][1] = "x" THEN "reparse:fails"
+  \* ev[9] (optional): two genes of the source span the very same interval (an antisense pair).  The SORTED reader
+  \* "relies entirely on increasing genomic position to partition features into genes ... inherently challenging because
+  \* of issues like overlapping genes" (its docstring): for such sources it is not asked; the other two modes are
+  LET lapped == Len(ev) >= 9 /\ ev[9] modes == IF lapped THEN 5..6 ELSE 4..6 IN
+  IF \E k \in modes : ev[k][1] = "x" THEN "reparse:fails"
   ELSE FirstBad(<<
-    Ok(ev[4][2] = ev[5][2] /\ ev[5][2] = ev[6][2], "parser-modes-agree"),
+    Ok((lapped \/ ev[4][2] = ev[5][2]) /\ ev[5][2] = ev[6][2], "parser-modes-agree"),
     \* ev[7] = locus tags of the source genes along the sequence, ev[8] = the gene order each mode returns: a
-    \* position-sorted file with unique locus tags comes back in that order from every mode
-    Ok(\A k \in DOMAIN ev[8] : ev[8][k] = ev[7], "parser-modes-agree:gene-order"),
+    \* position-sorted file with unique locus tags comes back in that order from every mode (genes on the same span:
+    \* in either order)
+    Ok(\A k \in DOMAIN ev[8] : (lapped /\ k = 1) \/ ev[8][k] = ev[7]
+                                \/ (lapped /\ BagOf(ev[8][k]) = BagOf(ev[7])), "parser-modes-agree:gene-order"),
     Ok(Len(ev[6][2]) = Len(src), "reparse:gene-count"),
     IF Len(ev[6][2]) # Len(src) \/ \A i \in DOMAIN src : StructExact(ev[6][2][i][1], src[i][1]) THEN "ok"
     ELSE IF \A i \in DOMAIN src : StructKnown(ev[6][2][i][1], src[i][1]) THEN "reparse:touching-blocks-merged"
